@@ -512,6 +512,153 @@ fn install_hook(world: &Rc<RefCell<World>>, yields: &Rc<RefCell<usize>>, chunks:
     })));
 }
 
+/// `bld workers=W limit=L n=K calls=c1,c2,…`: a REAL `Server` built through the public `ServerBuilder` with the
+/// setter calls in the given order (`limit`, `workers`, `blocking:N`, `backlog:N`, `timeout:S`), one TCP listener,
+/// `K >= W*L` clients held open. The service counts the connections in progress on its worker thread.
+/// Judged one-sidedly (a slow machine can only hide a violation, never produce one): T3 iff some worker has more
+/// than `L` connections in progress, or more than `W*L` are in progress in total.
+fn run_bld(ws: &[&str]) -> Option<(String, Vec<String>)> {
+    use std::sync::atomic::{AtomicBool, AtomicUsize};
+    let workers: usize = kv(ws, "workers")?.parse().ok()?;
+    let limit: usize = kv(ws, "limit")?.parse().ok()?;
+    let n: usize = kv(ws, "n")?.parse().ok()?;
+    let calls: Vec<&str> = kv(ws, "calls")?.split(',').collect();
+    let numarg = |c: &str, k: &str| -> Option<usize> {
+        let v: usize = c.strip_prefix(k)?.strip_prefix(':')?.parse().ok()?;
+        if (1..=4096).contains(&v) && !c[k.len() + 1..].starts_with('+') {
+            Some(v)
+        } else {
+            None
+        }
+    };
+    let ok_call = |c: &&str| *c == "limit" || *c == "workers" || numarg(c, "blocking").is_some() || numarg(c, "backlog").is_some() || numarg(c, "timeout").is_some();
+    if !((1..=8).contains(&workers) && (1..=16).contains(&limit) && workers * limit <= n && n <= 64 && calls.iter().all(ok_call))
+        || calls.iter().filter(|c| **c == "limit").count() != 1
+        || calls.iter().filter(|c| **c == "workers").count() != 1
+    {
+        return None;
+    }
+    struct Shared {
+        maxper: AtomicUsize,
+        started: AtomicUsize,
+        done: AtomicUsize,
+        release: AtomicBool,
+    }
+    thread_local! { static INPROG: std::cell::Cell<usize> = const { std::cell::Cell::new(0) }; }
+    let sh = Arc::new(Shared { maxper: AtomicUsize::new(0), started: AtomicUsize::new(0), done: AtomicUsize::new(0), release: AtomicBool::new(false) });
+    let calls: Vec<String> = calls.iter().map(|c| c.to_string()).collect();
+    let sh2 = sh.clone();
+    let res = std::thread::spawn(move || -> Result<(usize, usize, usize), String> {
+        let sh = sh2;
+        actix_rt::System::new().block_on(async move {
+            // ports may be scarce when many checks run at once: wait for one
+            let mut tries = 0;
+            let lst = loop {
+                match std::net::TcpListener::bind("127.0.0.1:0") {
+                    Ok(l) => break l,
+                    Err(e) if tries < 300 && matches!(e.kind(), io::ErrorKind::AddrInUse | io::ErrorKind::AddrNotAvailable) => {
+                        tries += 1;
+                        tokio::time::sleep(Duration::from_millis(200)).await;
+                    }
+                    Err(e) => return Err(format!("bind: {e}")),
+                }
+            };
+            let addr = lst.local_addr().map_err(|e| e.to_string())?;
+            let mut b = actix_server::Server::build();
+            for c in &calls {
+                let arg = c.split(':').nth(1).and_then(|v| v.parse::<usize>().ok()).unwrap_or(0);
+                b = match c.split(':').next().unwrap() {
+                    "limit" => b.max_concurrent_connections(limit),
+                    "workers" => b.workers(workers),
+                    "blocking" => b.worker_max_blocking_threads(arg),
+                    "backlog" => b.backlog(arg as u32),
+                    "timeout" => b.shutdown_timeout(arg as u64),
+                    _ => unreachable!(),
+                };
+            }
+            let shs = sh.clone();
+            let srv = b
+                .disable_signals()
+                .listen("verif-bld", lst, move || {
+                    let sh = shs.clone();
+                    actix_service::fn_service(move |stream: actix_rt::net::TcpStream| {
+                        let sh = sh.clone();
+                        async move {
+                            let c = INPROG.with(|c| {
+                                c.set(c.get() + 1);
+                                c.get()
+                            });
+                            sh.maxper.fetch_max(c, Ordering::SeqCst);
+                            sh.started.fetch_add(1, Ordering::SeqCst);
+                            while !sh.release.load(Ordering::SeqCst) {
+                                tokio::time::sleep(Duration::from_millis(5)).await;
+                            }
+                            INPROG.with(|c| c.set(c.get() - 1));
+                            sh.done.fetch_add(1, Ordering::SeqCst);
+                            drop(stream);
+                            Ok::<_, ()>(())
+                        }
+                    })
+                })
+                .map_err(|e| format!("listen: {e}"))?
+                .run();
+            let handle = srv.handle();
+            let srv_task = actix_rt::spawn(srv);
+            let mut clients = vec![];
+            for _ in 0..n {
+                let mut tries = 0;
+                let c = loop {
+                    match std::net::TcpStream::connect(addr) {
+                        Ok(c) => break c,
+                        Err(e) if tries < 300 && matches!(e.kind(), io::ErrorKind::AddrInUse | io::ErrorKind::AddrNotAvailable) => {
+                            tries += 1;
+                            tokio::time::sleep(Duration::from_millis(200)).await;
+                        }
+                        Err(e) => return Err(format!("connect: {e}")),
+                    }
+                };
+                let _ = socket2::SockRef::from(&c).set_linger(Some(Duration::ZERO));
+                clients.push(c);
+            }
+            // wait for the plateau (every worker saturated), then give an over-dispatch time to show
+            let want = workers * limit;
+            let t0 = std::time::Instant::now();
+            while sh.started.load(Ordering::SeqCst) < want && t0.elapsed() < Duration::from_secs(60) {
+                tokio::time::sleep(Duration::from_millis(10)).await;
+            }
+            tokio::time::sleep(Duration::from_millis(400)).await;
+            let started = sh.started.load(Ordering::SeqCst);
+            let maxper = sh.maxper.load(Ordering::SeqCst);
+            sh.release.store(true, Ordering::SeqCst);
+            let t1 = std::time::Instant::now();
+            while sh.done.load(Ordering::SeqCst) < n && t1.elapsed() < Duration::from_secs(60) {
+                tokio::time::sleep(Duration::from_millis(10)).await;
+            }
+            let done = sh.done.load(Ordering::SeqCst);
+            drop(clients);
+            let _ = tokio::time::timeout(Duration::from_secs(30), handle.stop(true)).await;
+            let _ = tokio::time::timeout(Duration::from_secs(30), srv_task).await;
+            Ok((sh.maxper.load(Ordering::SeqCst).max(maxper), started, done))
+        })
+    })
+    .join();
+    let mut t3 = vec![];
+    let real = match res {
+        Ok(Ok((maxper, started, done))) => {
+            if maxper > limit {
+                t3.push(("C02", format!("{maxper} connections in progress on one worker, max_concurrent_connections is {limit} (builder calls: {})", kv(ws, "calls").unwrap_or(""))));
+            }
+            if started > workers * limit {
+                t3.push(("C02", format!("{started} connections in progress on {workers} workers, max_concurrent_connections is {limit}")));
+            }
+            format!("max={maxper} started={started} served={done}")
+        }
+        Ok(Err(e)) => format!("setup-error {e}"),
+        Err(_) => "panic".to_string(),
+    };
+    Some((real, t3.into_iter().map(|(p, m)| format!("{p}\t{m}")).collect()))
+}
+
 fn run(a: &Args) {
     silence_panics();
     let progress = Arc::new(AtomicU64::new(0));
@@ -519,6 +666,7 @@ fn run(a: &Args) {
     {
         let progress = progress.clone();
         let out = a.output.clone();
+        let wprop = a.prop.clone();
         std::thread::spawn(move || {
             let mut last = u64::MAX;
             let mut same = 0;
@@ -529,7 +677,12 @@ fn run(a: &Args) {
                     same += 1;
                     if same >= 20 {
                         if let Some(o) = &out {
-                            let _ = std::fs::write(format!("{o}.watchdog"), format!("#T3 prop=C08 case=@{p} accept loop made no progress for 20 s (spinning) at op number {p}\n"));
+                            let msg = "accept loop made no progress for 20 s (spinning): waiting connections are never dispatched";
+                            let mut txt = format!("#T3 prop={wprop} case=@{p} {msg}\n");
+                            if wprop != "C08" {
+                                txt.push_str(&format!("#T3 prop=C08 case=@{p} {msg}\n"));
+                            }
+                            let _ = std::fs::write(format!("{o}.watchdog"), txt);
                         }
                         std::process::exit(3);
                     }
@@ -551,6 +704,7 @@ fn run(a: &Args) {
             let mut op_out = line.clone();
             let real: String = match ws.as_slice() {
                 ["case", ..] => {
+                    rep.flush(); // the watchdog may have to end the process: keep what was observed so far
                     if let Some(c) = case.take() {
                         hooks::set_yield_hook(None);
                         for p in &c.uds_paths {
@@ -566,6 +720,16 @@ fn run(a: &Args) {
                         Err(e) => format!("setup-error {e}"),
                     }
                 }
+                ["bld", ..] => match run_bld(&ws) {
+                    Some((real, t3)) => {
+                        for t in t3 {
+                            let (p, m) = t.split_once('\t').unwrap();
+                            rep.t3(p, m);
+                        }
+                        real
+                    }
+                    None => "bad-op".into(),
+                },
                 ["k-new", l] => match l.parse::<usize>() {
                     Ok(l) => hooks::kernel_counter_new(l).to_string(),
                     Err(_) => "bad-op".into(),
@@ -754,6 +918,21 @@ fn run(a: &Args) {
                                             let msg = format!("{} notification(s) are still in the waker queue after two full iterations: wake-ups are not being processed", w.waker.queued());
                                             for t in tags { w.t3.push((t.to_string(), msg.clone())); }
                                         }
+                                        // C04: round-robin skips a worker only when it is at its limit — with no wake-up
+                                        // in flight, a live worker in the rotation that is below the limit is marked available
+                                        if w.waker.queued() == 0 {
+                                            for idx in after.handles.iter().cloned() {
+                                                if let Some(wid) = w.alive_wid(idx) {
+                                                    if w.live_wid[wid] < w.limit as i64 && !after.avail.get(idx).copied().unwrap_or(true) {
+                                                        let msg = format!(
+                                                            "quiescent, no wake-up pending: worker {idx} is alive, in the rotation and has {} of {} connections in progress but is marked unavailable — round-robin skips a worker that is not saturated",
+                                                            w.live_wid[wid], w.limit);
+                                                        w.t3.push(("C04".into(), msg.clone()));
+                                                        if w.any_die { w.t3.push(("C08".into(), msg)); }
+                                                    }
+                                                }
+                                            }
+                                        }
                                         // a live worker that has a handle and spare capacity
                                         let spare: Vec<usize> = after.handles.iter().cloned()
                                             .filter(|idx| w.alive_wid(*idx).map_or(false, |wid| w.live_wid[wid] < w.limit as i64)).collect();
@@ -920,8 +1099,8 @@ fn gen_case(w: &mut dyn Write, rng: &mut Rng, name: &str, prop: &str, long: bool
     let lst = *rng.pick(&["tcp", "tcp", "tcp,tcp", "tcp,uds", "uds"]);
     let listeners = lst.split(',').count();
     writeln!(w, "case {name} workers={workers} limit={limit} listeners={lst}").unwrap();
-    let faults = prop == "C08" || (prop == "C01" && rng.chance(1, 3));
-    let cmds = (matches!(prop, "C05" | "C01" | "C08") && rng.chance(2, 3)) || (prop == "C03" && rng.chance(1, 3));
+    let faults = prop == "C08" || (prop == "C01" && rng.chance(1, 3)) || (prop == "C04" && rng.chance(1, 4));
+    let cmds = (matches!(prop, "C05" | "C01" | "C08") && rng.chance(2, 3)) || (matches!(prop, "C03" | "C04") && rng.chance(1, 3));
     let inject = prop == "C05";
     let mut g = Gen { rng, workers, listeners, wids: workers, faults, cmds, inject };
     let n = if long { g.rng.range(20, 80) } else { g.rng.range(5, 40) };
@@ -1007,6 +1186,43 @@ fn gen(a: &Args) {
                 writeln!(w, "k-bits {} set {i} {}", ws.join(" "), rng.below(2)).unwrap();
             }
         }
+    }
+    if prop == "C02" {
+        // the configured limit reaches the workers whatever the order of the builder calls: real `Server`s
+        // through the public `ServerBuilder` API, clients held open (each scenario takes about half a second)
+        writeln!(w, "case builder workers=1 limit=1 listeners=tcp").unwrap();
+        let fixed = [
+            "bld workers=1 limit=2 n=5 calls=workers,limit,blocking:8",
+            "bld workers=2 limit=1 n=4 calls=limit,workers,blocking:3,backlog:64",
+            "bld workers=1 limit=3 n=6 calls=blocking:7,timeout:2,limit,workers",
+            "bld workers=2 limit=2 n=7 calls=backlog:32,workers,limit,timeout:1,blocking:16",
+        ];
+        for f in fixed {
+            writeln!(w, "{f}").unwrap();
+        }
+        let extra = if thorough { 40 } else { 4 };
+        for _ in 0..extra {
+            let wk = 1 + rng.below(3) as usize;
+            let l = 1 + rng.below(3) as usize;
+            let n = wk * l + rng.below(4) as usize;
+            let mut calls = vec!["limit".to_string(), "workers".to_string()];
+            for (k, hi) in [("blocking", 64usize), ("backlog", 256), ("timeout", 3)] {
+                if rng.chance(2, 3) {
+                    calls.push(format!("{k}:{}", 1 + rng.below(hi)));
+                }
+            }
+            // Fisher-Yates
+            for i in (1..calls.len()).rev() {
+                let j = rng.below(i + 1);
+                calls.swap(i, j);
+            }
+            writeln!(w, "bld workers={wk} limit={l} n={n} calls={}", calls.join(",")).unwrap();
+        }
+        // malformed
+        writeln!(w, "bld workers=0 limit=1 n=1 calls=limit,workers").unwrap();
+        writeln!(w, "bld workers=1 limit=2 n=1 calls=limit,workers").unwrap();
+        writeln!(w, "bld workers=1 limit=1 n=1 calls=limit").unwrap();
+        writeln!(w, "bld workers=1 limit=1 n=1 calls=limit,workers,bogus:3").unwrap();
     }
     let cases = if thorough { 30000 } else { 1200 };
     for c in 0..cases {
